@@ -124,3 +124,21 @@ Proof.
 Qed.
 Theorem code_unify_wf : forall f u v s s', wf s -> g_unify f u v s = Ret (s', true) -> wf s'.
 Proof. intros f u v s s' W H. apply g_unify_ok in H. exact (unify_wf f u v s s' W H). Qed.
+
+(* EqualO (micro/goal.go) as a function of its two terms and the state: zero or one state, the counter unchanged *)
+Definition of_goal_res (r : res) (c : N) : R Stream.stream :=
+  match r with OOF => OOF_ | Fail => Ret Stream.SNil | Ok s' => Ret (Stream.SCons (mkSt s' c) Stream.SNil) end.
+Lemma g_EqualO_spec f u v st : g_EqualO f u v st = of_goal_res (unify f u v (sub st)) (ctr st).
+Proof. unfold g_EqualO. rewrite g_unify_spec. destruct (unify f u v (sub st)); reflexivity. Qed.
+
+Theorem code_goal : forall f u v st r, g_EqualO f u v st = Ret r ->
+  (r = Stream.SNil /\ ~ exists rr, sat rr (sub st) /\ inst rr u = inst rr v) \/
+  (exists s', r = Stream.SCons (mkSt s' (ctr st)) Stream.SNil /\ (exists ext, s' = sub st ++ ext) /\
+              forall rr, sat rr s' <-> (sat rr (sub st) /\ inst rr u = inst rr v)).
+Proof.
+  intros f u v st r H. rewrite g_EqualO_spec in H. destruct (unify f u v (sub st)) as [| |s'] eqn:E; cbn in H; try discriminate.
+  - inversion H. left. split; [reflexivity|exact (unify_fail f u v (sub st) E)].
+  - inversion H. right. exists s'. split; [reflexivity|]. split; [exact (proj1 (unify_sound f u v (sub st) s' E))|].
+    intros rr. split; [exact (proj2 (unify_sound f u v (sub st) s' E) rr)|].
+    intros [Hs He]. exact (proj2 (unify_mgu f u v (sub st) s' E rr) (conj Hs He)).
+Qed.
